@@ -764,6 +764,10 @@ namespace Pistache::Http
         os << std::hex << sz << crlf;
         os.write(data, sz);
         os << crlf;
+        if (!os)
+        {
+            throw Error("Response exceeded buffer size");
+        }
         return sz;
     }
 
